@@ -33,6 +33,8 @@ def check(model_bytes, model=None):
         d = m.buffers[t.buffer].data
         if d is not None and len(d) > 0:
           const.add(ti)
+        elif getattr(t, 'isVariable', False):
+          const.add(ti)       # a variable (state) tensor is readable from the start, like a constant
     graph_inputs = set(int(i) for i in sg.inputs)
     avail = set(graph_inputs) | const
     for i in list(sg.inputs) + list(sg.outputs):
